@@ -21,8 +21,9 @@ Guard(g) == g \notin Weak
 \*   sess: "this" | "other"   (other = a different session / shared secret)
 \*   dir : "fwd" | "rev"      (rev = the receiver's own outgoing direction, reflected back)
 \*   idx : 1..NSent           (frame number = counter + 1)
-\*   alt : "none" | "len" | "ct" | "tag" | "cut"   (cut = the stream ends inside this frame)
-Items == [sess : {"this", "other"}, dir : {"fwd", "rev"}, idx : 1..NSent, alt : {"none", "len", "ct", "tag", "cut"}]
+\*   alt : "none" | "len" | "ct" | "tag" | "cut" | "zero"
+\*         (cut = the stream ends inside this frame; zero = a forged frame in its place: length 0 and an arbitrary tag)
+Items == [sess : {"this", "other"}, dir : {"fwd", "rev"}, idx : 1..NSent, alt : {"none", "len", "ct", "tag", "cut", "zero"}]
 Genuine(it, k) == it.sess = "this" /\ it.dir = "fwd" /\ it.idx = k /\ it.alt = "none"
 
 Init == /\ wire \in UNION {[1..n -> Items] : n \in 0..MaxWire}
